@@ -59,7 +59,7 @@ def asym_occupancy(log):
 class Check(DiffCheck):
     id = 'C05'
     coq_dirs = ['Base', 'E3', 'C05']
-    coq_targets = ['C05/C05_AsymProofs.vo', 'C05/C05_Proofs.vo', 'C05/C05_Proofs2.vo', 'C05/C05_Proofs3.vo', 'C05/C05_Proofs4.vo']
+    coq_targets = ['C05/C05_AsymProofs.vo', 'C05/C05_Proofs.vo', 'C05/C05_Proofs2.vo', 'C05/C05_Proofs3.vo', 'C05/C05_Proofs4.vo', 'C05/C05_PoolProofs.vo']
     properties_v = 'C05/C05_Properties.v'
     extract_v = 'C05/C05_Extract.v'
     runner_ml = 'ocaml/C05_run.ml'
@@ -112,6 +112,17 @@ while i < len(lines):
     p = subprocess.run([exe, fn], stdout=subprocess.PIPE, stderr=subprocess.PIPE, universal_newlines=True, errors='replace')
     out = p.stdout.split('\\n')[:-1] if p.stdout.endswith('\\n') else p.stdout.split('\\n')
     for k in range(j - i):
+        # a HANG of the E2 child is a real-time event (20 s without output on a loaded machine): such a case is run again,
+        # alone and with a 10x limit, before it is believed
+        if tag == 'P' and k < len(out) and 'HANG' in out[k][:40]:
+            one = sys.argv[1] + '.%%d.retry' %% (i + k)
+            open(one, 'w').write(lines[i + k] + '\n')
+            env2 = dict(os.environ); env2['E2_TIMEOUT_MS'] = '200000'
+            for attempt in range(2):
+                q = subprocess.run([exe, one], stdout=subprocess.PIPE, stderr=subprocess.PIPE, universal_newlines=True, errors='replace', env=env2)
+                o2 = q.stdout.strip().split('\n')[0] if q.stdout.strip() else out[k]
+                if 'HANG' not in o2[:40]:
+                    out[k] = o2; break
         if k < len(out): print(out[k])
         elif k == len(out): print('CRASH(%%s): %%s' %% (p.returncode, (p.stderr.strip().splitlines() or [''])[-1][:200]))
         else: print('CRASH(skipped)')
@@ -344,6 +355,8 @@ while i < len(lines):
         #    M: migration + cross-vCPU interrupt/join, work stealing OFF: the run-queue lock has no background side
         #       (F5 cannot fire) and no READY thread is ever taken by another vCPU (F23 cannot fire): must be clean
         rc, out = sh([self.stress, 'M', str(secs), str(ctx['seed'])], timeout=secs * 20 + 120, env=env)
+        if rc == 124 and 'STRESS-FAIL' not in out:          # only the outer real-time limit fired (loaded machine): once more, 5x limit
+            rc, out = sh([self.stress, 'M', str(secs), str(ctx['seed'])], timeout=(secs * 20 + 120) * 5, env=env)
         cov['stress_migrate'] = out.strip()[-400:]
         if rc != 0 or 'STRESS-OK' not in out:
             viol.append(dict(kind='oracle', message='multi-vCPU stress (migrate/interrupt/join, stealing off) failed: ' + out.strip()[-600:],
